@@ -78,35 +78,52 @@ func (li *luaInterp) newTable() *LTableV {
 // ---- running a chunk ----
 
 // runLua executes script with the global obj; returns the chunk's return values or an error message.
-func (ex *Exec) runLua(script string, obj LVal) (ret []LVal, errMsg string) {
-	chunk, err := parse.Parse(strings.NewReader(script), "script")
-	if err != nil {
-		return nil, "lua parse error: " + err.Error()
-	}
-	li := &luaInterp{ex: ex, globals: &luaScope{vars: map[string]*LVal{}}}
-	li.globals.vars["obj"] = &obj
-	for _, lib := range []string{"string", "table", "math"} {
+// newLuaState: an interpreter with empty globals (lua.NewState with SkipOpenLibs); libraries come with openLib.
+func (ex *Exec) newLuaState() *luaInterp {
+	return &luaInterp{ex: ex, globals: &luaScope{vars: map[string]*LVal{}}}
+}
+
+// openLib makes the modelled part of a standard library available in the state's globals.
+func (li *luaInterp) openLib(lib string) {
+	set := func(lib string, names ...string) {
 		t := li.newTable()
+		for _, name := range names {
+			t.keys = append(t.keys, LStrV{mkStr(name)})
+			t.vals = append(t.vals, &LFuncV{builtin: lib + "." + name})
+		}
 		var v LVal = t
 		li.globals.vars[lib] = &v
 	}
-	for _, b := range []string{"ipairs", "pairs", "next", "tostring", "tonumber", "type", "print", "error"} {
-		var v LVal = &LFuncV{builtin: b}
-		li.globals.vars[b] = &v
+	switch lib {
+	case "base":
+		for _, b := range []string{"ipairs", "pairs", "next", "tostring", "tonumber", "type", "print", "error"} {
+			var v LVal = &LFuncV{builtin: b}
+			li.globals.vars[b] = &v
+		}
+	case "string":
+		set("string", "format", "find", "sub", "len", "lower", "upper", "gsub", "match")
+	case "table":
+		set("table", "insert", "remove", "concat")
+	case "math":
+		set("math", "floor", "ceil", "max", "min", "abs")
 	}
-	set := func(lib, name string) {
-		t := (*li.globals.vars[lib]).(*LTableV)
-		t.keys = append(t.keys, LStrV{mkStr(name)})
-		t.vals = append(t.vals, &LFuncV{builtin: lib + "." + name})
+}
+
+// runLua executes script in a fresh state with the standard libraries and the global obj.
+func (ex *Exec) runLua(script string, obj LVal) (ret []LVal, errMsg string) {
+	li := ex.newLuaState()
+	for _, lib := range []string{"base", "string", "table", "math"} {
+		li.openLib(lib)
 	}
-	for _, n := range []string{"format", "find", "sub", "len", "lower", "upper", "gsub", "match"} {
-		set("string", n)
-	}
-	for _, n := range []string{"insert", "remove", "concat"} {
-		set("table", n)
-	}
-	for _, n := range []string{"floor", "ceil", "max", "min", "abs"} {
-		set("math", n)
+	li.globals.vars["obj"] = &obj
+	return li.run(script)
+}
+
+// run executes a chunk in the state (globals persist in it); returns the chunk's return values or an error message.
+func (li *luaInterp) run(script string) (ret []LVal, errMsg string) {
+	chunk, err := parse.Parse(strings.NewReader(script), "script")
+	if err != nil {
+		return nil, "lua parse error: " + err.Error()
 	}
 	defer func() {
 		if r := recover(); r != nil {
